@@ -52,6 +52,55 @@ def cases(checkers=("none", "byteeq", "count"), ops=None, umask=None, sample=Non
     return out
 
 
+def _one(w, rs, contents, ck, op, which=0, umask=None):
+    levels = ([("w", w)] if w else []) + [("r%d" % i, r) for i, r in enumerate(rs)]
+    wval = contents[0] if w else "-"
+    rvals = contents[1:] if w else contents
+    L = G.header(w, rs, ck, umask=umask)
+    for (rn, fr), c in zip(levels, contents):
+        if c != "-":
+            L.append(G.plant(G.key_path(fr, rn, KEY, which=which if fr[0] == "sharded" else 0), c))
+    L.append(G.NOFIRE)
+    L.append("snap")
+    if op[0] in ("get", "touch"):
+        L.append(G.op(0, op[0], KEY)); aop = op[0]
+    elif op[0] == "ensure":
+        L.append(G.op(0, "ensure", KEY, op[1] + (":1" if op[1].startswith("val") else ""))); aop = "gou promote %s" % op[1]
+    else:
+        L.append(G.op(0, "gou", KEY, op[1], 1, op[2] + (":1" if op[2].startswith("val") else ""))); aop = "gou %s %s" % (op[1], op[2])
+    L.append("snap")
+    absline = "%d %s %s %s %s" % (1 if w else 0, wval, ",".join(rvals) if rvals else "none", ck if ck != "counterr" else "byteeq", aop)
+    return ({"w": w, "rs": rs, "contents": tuple(contents), "ck": ck, "op": op, "abs": absline, "which": which}, L)
+
+
+def extra_cases(checkers=("none", "byteeq", "count")):
+    """Targeted additions that the exhaustive matrix does not contain (both tiers):
+    (a) three read-only levels with a GAP between two copies (every copy must still be found / compared);
+    (b) entries living in the SECONDARY shard of a sharded level, looked up through a fresh handle."""
+    out = []
+    ops = [("get",), ("touch",), ("gou", "accept", "val:A"), ("gou", "promote", "val:A"), ("ensure", "val:A")]
+    for rs in ((("plain",), ("sharded", 3), ("plain",)), (("plain",), ("plain",), ("plain",))):
+        for w in (None, ("plain", 100)):
+            for rvals in (("A", "-", "B"), ("A", "-", "A"), ("B", "-", "A"), ("-", "A", "B"), ("A", "B", "-")):
+                for wval in (("-", "A") if w else ("-",)):
+                    contents = ((wval,) if w else ()) + rvals
+                    for ck in checkers:
+                        for op in ops:
+                            if w is None and op[0] in ("gou", "ensure") and op[0] != "gou":
+                                continue
+                            out.append(_one(w, rs, contents, ck, op))
+    for w, rs in ((("sharded", 4, 100), ()), (("sharded", 4, 100), (("sharded", 3),)), (None, (("sharded", 3),)), (("plain", 100), (("sharded", 3), ("plain",)))):
+        nlev = (1 if w else 0) + len(rs)
+        for contents in itertools.product(["-", "A"], repeat=nlev):
+            if all(c == "-" for c in contents):
+                continue
+            for op in (("get",), ("touch",), ("gou", "accept", "val:A")):
+                if w is None and op[0] == "gou":
+                    continue
+                out.append(_one(w, rs, contents, "none", op, which=1))
+    return out
+
+
 def spec_outcomes(abslines):
     p = subprocess.run([C.KMODEL, "stackspec"], input="\n".join(abslines) + "\n", stdout=subprocess.PIPE, text=True)
     res = {}
